@@ -12,8 +12,14 @@
 //            sweep:<c|f>:LMAX                      LENGTH SWEEP, index = L in 0..LMAX: c = counting pattern 00 01 .. FF 00 ..; f = all FF (L even) / all 80 (L odd)
 //            sweepdec:<c|f>:<T>:<p|u>:LMAX         reference encoding of that string, padded (p) or with the '=' removed (u, only L%3 != 0), followed by the
 //                                                  terminator T in none|pad|nl|high|dash ("", "=", "\n", "\x80", "-")
+//            pow2:<c|f>:KLO:KHI                    POWER-OF-TWO WINDOWS: the sweep contents at every length 2^k-4 .. 2^k+32 for every k in KLO..KHI
+//                                                  (37 consecutive lengths per k: every residue mod 3 and mod 12 on both sides of 2^k); index = 37*(k-KLO) + j
+//            pow2dec:<c|f>:<T>:<p|u>:KLO:KHI       the sweepdec construction (reference encoding, padded / unpadded, terminator T) for those lengths
+//                                                  (u: only the lengths with L%3 != 0, in increasing order)
 //            lit:xHEX      the one string given in hex (replay)
 //   --refdump MODE FAMILY LO HI prints the reference's answers only (cross-checked against python's base64 by check.py)
+//   --refdigest MODE FAMILY LO HI the same for long strings: prints length + CRC-32 of the generated input and of the reference's answer
+//                                 (check.py regenerates the input on its own, runs python's base64 and compares lengths and CRCs)
 //     LO HI  index range [LO,HI) inside the family (index = the string read as a number in base |alphabet|, most significant first)
 //
 // Every chunk of cases runs in a forked child.  The child publishes the index and the phase (which library call) of the
@@ -97,7 +103,8 @@ static std::string show(const std::string& b) { return show(bytes(b.begin(), b.e
 struct Family
 {
     std::string spec;
-    int kind = 0;            // 0 full, 1 enc6, 2 dec13, 3 heap13, 4 long, 5 lit, 6 sweep, 7 sweepdec
+    int kind = 0;            // 0 full, 1 enc6, 2 dec13, 3 heap13, 4 long, 5 lit, 6 sweep, 7 sweepdec, 8 pow2, 9 pow2dec
+    std::vector<std::size_t> lens;   // pow2 / pow2dec: the lengths, in index order
     char content = 'c';      // sweep: 'c' counting pattern 00 01 .. FF 00 .., 'f' fill: all FF for even length, all 80 for odd length
     int term = 0;            // sweepdec: terminator appended to the encoding: 0 none, 1 "=", 2 "\n", 3 "\x80", 4 "-"
     bool unpadded = false;   // sweepdec: '=' padding of the canonical encoding removed (only lengths with L % 3 != 0)
@@ -146,9 +153,36 @@ struct Family
             count = unpadded ? (unsigned long long)(lmax - lmax / 3) : (unsigned long long)lmax + 1;
             return true;
         }
+        if (s.compare(0, 5, "pow2:") == 0 || s.compare(0, 8, "pow2dec:") == 0)
+        {
+            // pow2:<c|f>:<klo>:<khi> / pow2dec:<c|f>:<term>:<p|u>:<klo>:<khi> — index runs over the window 2^k-WIN_BELOW .. 2^k+WIN_ABOVE of every k in klo..khi
+            const bool dec = s[4] == 'd';
+            kind = dec ? 9 : 8;
+            int klo = 0, khi = 0;
+            if (!dec)
+            {
+                if (std::sscanf(s.c_str() + 5, "%c:%d:%d", &content, &klo, &khi) != 3) return false;
+            }
+            else
+            {
+                char tn[8] = {0}, pu = 0;
+                if (std::sscanf(s.c_str() + 8, "%c:%7[a-z]:%c:%d:%d", &content, tn, &pu, &klo, &khi) != 5) return false;
+                const std::string t = tn;
+                term = t == "none" ? 0 : t == "pad" ? 1 : t == "nl" ? 2 : t == "high" ? 3 : t == "dash" ? 4 : -1;
+                if (term < 0 || (pu != 'p' && pu != 'u')) return false;
+                unpadded = pu == 'u';
+            }
+            if ((content != 'c' && content != 'f') || klo < 6 || khi > 28 || klo > khi) return false;
+            for (int k = klo; k <= khi; ++k)
+                for (std::size_t len = (std::size_t(1) << k) - WIN_BELOW; len <= (std::size_t(1) << k) + WIN_ABOVE; ++len)
+                    if (!unpadded || len % 3 != 0) lens.push_back(len);
+            count = lens.size();
+            return true;
+        }
         if (s.compare(0, 4, "lit:") == 0) { kind = 5; count = 1; return unhex(s.substr(4), lit); }
         return false;
     }
+    enum { WIN_BELOW = 4, WIN_ABOVE = 32 };
 
     static void digits(unsigned long long idx, const unsigned char* alpha, unsigned base, int len, bytes& out)
     {
@@ -188,10 +222,12 @@ struct Family
             }
             break;
         case 6: sweep_content(content, std::size_t(idx), out); break;
+        case 8: sweep_content(content, lens[std::size_t(idx)], out); break;
         case 7:
+        case 9:
         {
             static bytes plain;
-            const std::size_t len = unpadded ? std::size_t(3 * (idx / 2) + 1 + idx % 2) : std::size_t(idx);
+            const std::size_t len = kind == 9 ? lens[std::size_t(idx)] : unpadded ? std::size_t(3 * (idx / 2) + 1 + idx % 2) : std::size_t(idx);
             sweep_content(content, len, plain);
             ref4648::encode(plain, out);
             if (unpadded) while (!out.empty() && out.back() == '=') out.pop_back();
@@ -209,6 +245,7 @@ struct Family
     {
         if (kind == 6) return idx <= 256;
         if (kind == 7) return (unpadded ? 3 * (idx / 2) + 1 + idx % 2 : idx) <= 256;
+        if (kind == 8 || kind == 9) return lens[std::size_t(idx)] <= 70000;   // may coincide with a case of the complete length sweep (0..20000 / 0..70000)
         return false;
     }
 
@@ -480,7 +517,9 @@ static void run_range(bool enc, const Family& f, unsigned long long lo, unsigned
             in.reserve(300);
             for (unsigned long long i = at; i < hi; ++i)
             {
-                if (((i - at) & 0x3f) == 0) alarm(60);   // watchdog: 64 cases (<= 70000 bytes each) never take 60 s unless a call does not return
+                // watchdog: 64 cases (<= 70000 bytes each) never take 60 s unless a call does not return; one power-of-two-window case (<= 2^28 bytes) never takes 900 s
+                if (f.kind == 8 || f.kind == 9) alarm(900);
+                else if (((i - at) & 0x3f) == 0) alarm(60);
                 if (enc) enc_case(f, i, in); else dec_case(f, i, in);
             }
             alarm(0);
@@ -540,7 +579,27 @@ static void run_range(bool enc, const Family& f, unsigned long long lo, unsigned
     }
 }
 
-struct Job { bool enc; bool refdump; Family f; unsigned long long lo, hi; };
+struct Job { bool enc; bool refdump; bool digest; Family f; unsigned long long lo, hi; };
+
+// CRC-32 (IEEE 802.3, reflected, as zlib.crc32) - only used to let check.py compare long reference answers without shipping them as hex
+static unsigned long crc32_of(const bytes& b)
+{
+    static unsigned long table[256];
+    static bool have = false;
+    if (!have)
+    {
+        for (unsigned long n = 0; n < 256; ++n)
+        {
+            unsigned long c = n;
+            for (int k = 0; k < 8; ++k) c = (c & 1ul) ? 0xEDB88320ul ^ (c >> 1) : c >> 1;
+            table[n] = c;
+        }
+        have = true;
+    }
+    unsigned long c = 0xFFFFFFFFul;
+    for (unsigned char x : b) c = table[(c ^ x) & 0xFFul] ^ (c >> 8);
+    return (c ^ 0xFFFFFFFFul) & 0xFFFFFFFFul;
+}
 
 // --refdump: print what the REFERENCE says (no library call) so that check.py can cross-check the reference itself
 // against a second, unrelated implementation (python's base64 module) before any verdict is based on it
@@ -551,6 +610,10 @@ static void refdump(const Job& j)
     {
         j.f.make(i, in);
         const bytes out = j.enc ? ref4648::encode(in) : ref4648::spec_decode(in);
+        if (j.digest)
+            std::printf("@@{\"t\":\"refd\",\"m\":\"%s\",\"f\":\"%s\",\"idx\":%llu,\"in\":%llu,\"icrc\":%lu,\"on\":%llu,\"ocrc\":%lu}\n", j.enc ? "enc" : "dec", j.f.spec.c_str(), i,
+                        (unsigned long long)in.size(), crc32_of(in), (unsigned long long)out.size(), crc32_of(out));
+        else
         std::printf("@@{\"t\":\"ref\",\"m\":\"%s\",\"i\":\"%s\",\"o\":\"%s\"}\n", j.enc ? "enc" : "dec", hex(in).c_str() + 1, hex(out).c_str() + 1);
     }
     vf::stat("reference_selfcheck_cases", (long long)(j.hi - j.lo));
@@ -567,10 +630,11 @@ int main(int argc, char** argv)
         if (a == "--chunk" && i + 1 < argc) chunk = std::strtoull(argv[++i], nullptr, 10);
         else if (a == "--deadline" && i + 1 < argc) deadline = std::atol(argv[++i]);
         else if (a == "--samples" && i + 1 < argc) g_samples = std::atoi(argv[++i]);
-        else if ((a == "--job" || a == "--refdump") && i + 4 < argc)
+        else if ((a == "--job" || a == "--refdump" || a == "--refdigest") && i + 4 < argc)
         {
             Job j;
-            j.refdump = a == "--refdump";
+            j.digest = a == "--refdigest";
+            j.refdump = a == "--refdump" || j.digest;
             std::string m = argv[i + 1];
             if (m != "enc" && m != "dec") { std::fprintf(stderr, "bad mode %s\n", m.c_str()); return 2; }
             j.enc = m == "enc";
